@@ -82,7 +82,7 @@ def rule_finish_forced_draw(ctx, crate, rule="R-FINISH-FORCED-DRAW"):
     # state first, then paint
     sts = status_stores(b)
     writes = [(i, "status", s.get("line", 0)) for i, s, vs in sts] + [(i, "message", s.get("line", 0)) for i, s in message_stores(b)] + \
-        [(c.bb, "position", c.line) for c in b.calls(r"state::AtomicPosition::(set|inc|dec|reset)")]
+        [(c.bb, "position", c.line) for c in b.calls(r"state::AtomicPosition::(set|inc|dec|reset)", r"state::ProgressState::set_pos")]
     ctx.floor(rule, len(writes), 6, cfg, "state writes in finish_using_style")
     for bb, what, line in writes:
         ctx.check(bb not in after, rule, "state-before-draw:%s" % what, b.name, "%s:%d" % (b.file, line),
@@ -97,6 +97,35 @@ def rule_finish_forced_draw(ctx, crate, rule="R-FINISH-FORCED-DRAW"):
               "finish_using_style stores Status::InProgress", cfg)
 
 
+def position_setters(crate):
+    """Crate functions that store their k-th argument into the shared position: {name: k}."""
+    out = {"state::AtomicPosition::set": 2}
+    changed = True
+    while changed:
+        changed = False
+        for b in K.lib_bodies(crate):
+            if b.name in out or b.kind == "Closure":
+                continue
+            for c in b.calls():
+                k = None
+                for t in [c.path] + crate.resolve_targets(c):
+                    if t in out:
+                        k = out[t]
+                if k is None or k - 1 >= len(c.args):
+                    continue
+                sl = b.slice_args(c, [k - 1])
+                ps = sl.params()
+                if len(ps) == 1 and not [x for x in sl.calls if not x.matches(*b.REF_FORWARD)] and b.must_pass([0], [c.bb]):
+                    out[b.name] = next(iter(ps))
+                    changed = True
+    return out
+
+
+def is_length_value(b, call, idx):
+    sl = b.slice_args(call, [idx])
+    return (sl.has_field("len", "state::ProgressState") or sl.has_call(r"state::ProgressState::len")) and not [c for c in sl.consts() if isinstance(c, int) and not isinstance(c, bool) and c > 1]
+
+
 def rule_finish_arms(ctx, crate, rule="R-FINISH-ARMS"):
     cfg = crate.config
     b = K.find_one(ctx, crate, rule, FINISH)
@@ -108,7 +137,8 @@ def rule_finish_arms(ctx, crate, rule="R-FINISH-ARMS"):
     fin_params = [i for i in range(1, b.arg_count + 1) if b.locals[i].get("head") == "state::ProgressFinish"]
     regs = K.variant_regions(b, crate, "state::ProgressFinish", lambda pl: pl["l"] in fin_params and not pl["p"])
     seen = set()
-    sets = b.calls(r"state::AtomicPosition::set")
+    setters = position_setters(crate)
+    sets = [c for c in b.calls() if any(t in setters for t in [c.path] + crate.resolve_targets(c))]
     msgs = message_stores(b)
     sts = status_stores(b)
     for vs, reg, sb, pl in regs:
@@ -127,8 +157,8 @@ def rule_finish_arms(ctx, crate, rule="R-FINISH-ARMS"):
                   "%s %s the position to the length" % (v, "sets" if want_set else "leaves"),
                   "%s arm %s set the position to the length" % (v, "does not" if want_set else "must not"), cfg)
         for c in has_set:
-            sl = b.slice_args(c, [1])
-            ctx.check(sl.has_field("len", "state::ProgressState") and not sl.consts() - {0, 1}, rule, "%s:position-value" % v, b.name, c.loc(),
+            kk = [setters[t] for t in [c.path] + crate.resolve_targets(c) if t in setters][0]
+            ctx.check(is_length_value(b, c, kk - 1), rule, "%s:position-value" % v, b.name, c.loc(),
                       "position := state.len", "the finish position is not the bar's length", cfg)
         ctx.check(bool(has_msg) == want_msg, rule, "%s:message" % v, b.name, loc,
                   "%s %s the message" % (v, "stores" if want_msg else "keeps"),
